@@ -47,3 +47,4 @@ def rules(ctx):
     S.create_only_when_empty_rules(ctx)
     S.durability_guard_rules(ctx)
     S.flush_take_rules(ctx)
+    S.round5_rules(ctx)
